@@ -19,26 +19,26 @@ import (
 )
 
 type Params struct {
-	Idem      bool
-	RetryMax  int
-	NMsgs     int
-	Parts     []int32 // partition of message i (manual partitioner); len == NMsgs
-	NParts    int
-	NBrokers  int // partition p is led by broker 1+(p % NBrokers)
-	FlushMsgs int
-	FlushFreq time.Duration
-	Backoff   time.Duration
-	Policy    string // drain | input
-	Version   sarama.KafkaVersion
-	Faults    []string
+	Idem       bool
+	RetryMax   int
+	NMsgs      int
+	Parts      []int32 // partition of message i (manual partitioner); len == NMsgs
+	NParts     int
+	NBrokers   int // partition p is led by broker 1+(p % NBrokers)
+	FlushMsgs  int
+	FlushFreq  time.Duration
+	Backoff    time.Duration
+	Policy     string // drain | input
+	Version    sarama.KafkaVersion
+	Faults     []string
 	MetaFaults []string
-	Gates     map[string]bool // gate sites that are decision points
-	CloseAny  bool            // AsyncClose enabled at every decision point after the first submit
-	LastAfter bool            // the last message is submitted only after the first outcome event
-	Icpt      int             // number of interceptors (counting + header-appending); last one panics if IcptPanic
-	IcptPanic bool
-	Acks      sarama.RequiredAcks
-	Codec     sarama.CompressionCodec
+	Gates      map[string]bool // gate sites that are decision points
+	CloseAny   bool            // AsyncClose enabled at every decision point after the first submit
+	LastAfter  bool            // the last message is submitted only after the first outcome event
+	Icpt       int             // number of interceptors (counting + header-appending); last one panics if IcptPanic
+	IcptPanic  bool
+	Acks       sarama.RequiredAcks
+	Codec      sarama.CompressionCodec
 }
 
 func atoi(v url.Values, k string, def int) int {
